@@ -42,6 +42,7 @@ B = [
  ("b22-reload_now-is-lazy", ["C07"], [("mtbl/fileset.c",
    "\tif (f->shared_fs->n_iters > 0) {\n\t\tf->shared_fs->reload_needed = true;\n\t\treturn;\n\t}\n",
    "\tif (f->shared_fs->n_iters >= 0) {\n\t\t/* the reload is carried out by the next source operation */\n\t\tf->shared_fs->reload_needed = true;\n\t\treturn;\n\t}\n")]),
+ ("b24-process-global-one-time-allocation", ["C18"], [("mtbl/reader.c", "\tr->scratch = my_malloc(4096);\n", "")] if False else [("mtbl/reader.c", "\tmetadata_offset = r->len_data - MTBL_METADATA_SIZE;", "\t{\n\t\tstatic uint8_t *once_table;\t/* built on first use, lives as long as the process */\n\t\tif (once_table == NULL) {\n\t\t\tonce_table = my_malloc(65536);\n\t\t\tmemset(once_table, 0, 65536);\n\t\t}\n\t}\n\tmetadata_offset = r->len_data - MTBL_METADATA_SIZE;")]),
  ("b11-merger-extra-heapify", ["C04", "C05"], [("mtbl/merger.c", "\t\t\tif (res == mtbl_res_success)\n\t\t\t\theap_replace(it->h, e);", "\t\t\tif (res == mtbl_res_success) {\n\t\t\t\theap_replace(it->h, e);\n\t\t\t\theap_heapify(it->h);\n\t\t\t}")]),
 ]
 
